@@ -9,9 +9,6 @@ BehaviourExport == (Len(hist) = MaxSteps) => PrintT(<<"BEH", ToJson([steps |-> h
 UniVals  == 1..3
 Universe == {h \in [src : Rep, ver : UniVals, mv : [Rep -> {0} \cup UniVals], pv : [Rep -> {0} \cup UniVals]] :
                NoDup(h) /\ h.mv[h.src] # h.ver}
-UInit == /\ hlv \in {Fn(LAMBDA r : IF r = Order3[1] THEN u ELSE EmptyHLV) : u \in Universe}
-         /\ out = NoOut /\ seen = Fn(LAMBDA r : Zero) /\ mrg = Fn(LAMBDA r : {}) /\ gen = Zero
-         /\ gcls = "None" /\ mono = TRUE /\ genok = TRUE /\ lost = Fn(LAMBDA r : {}) /\ dev = "" /\ hist = <<>>
-UNext == UNCHANGED vars
-UniExport == PrintT(<<"UNI", ToJson(hlv[Order3[1]])>>)
+(* exported once, from the initial state of the behaviour-generation run *)
+UniverseExport == (hist = <<>>) => \A u \in Universe : PrintT(<<"UNI", ToJson(u)>>)
 =============================================================================
